@@ -453,7 +453,7 @@ TWIN_SHARE = 0.03
 
 
 def gen_case(rng, tier):
-    return _twin.maybe_wrap(rng, _gen_case(rng, tier), TWIN_SHARE, est_steps=2500,
+    return _twin.maybe_wrap(rng, _gen_case(rng, tier), TWIN_SHARE, est_steps=2500, gen_other=lambda r: _gen_case(r, tier),
                             ok=lambda c: c['level'] == 'b' and len(c['st'].get('parts', [])) <= 4
                             and sum(len(p['data']) for p in c['st']['parts']) <= 4000)
 
